@@ -4,9 +4,23 @@ import CelModel.StrLit
 
 Statements about the literal decoders `StrLit.parseString` (a character-for-character port of
 `antlr/src/parse.rs::parse_string`) and `StrLit.parseBytes` (`visit_Bytes` + `parse_bytes`).
-The quote-toggling decoder has genuine defects (DESIGN.md D5: recorded as known findings); the
-round-trip theorem for strings is therefore `…_partial` (one-line styles, no escaped quote of
-the other kind) and the defects are pinned by `…_counterexample` theorems.
+The quote-toggling decoder of the one-line styles has genuine defects (DESIGN.md D5a, D5b:
+recorded as known findings); the round-trip theorem for one-line strings is therefore
+`string_roundtrip_partial` (no verbatim quote character of either kind, no escaped quote of the
+other kind) and the two remaining defects are pinned by the counterexample theorems
+`other_quote_escape_counterexample` (D5a) and `raw_backslash_quote_counterexample` /
+`raw_dangling_backslash` (D5b).
+D5c (triple-quoted literals went through the quote toggling) is REPAIRED in the implementation
+and in the model: a triple-quoted text (`isTriple`) has its delimiters stripped once and its
+body decoded with quote characters taken literally.  The round trip for triple-quoted literals
+is proved (`triple_quoted_roundtrip_partial`: quotes of either kind and line breaks verbatim, all
+escape spellings), raw triple-quoted literals denote their body verbatim for every body
+(`raw_triple_verbatim`), and the former D5c witnesses now decode to what was written
+(`triple_quote_inner_quotes`; the old `triple_quote_counterexample` is gone — it is false now,
+by design).  Since the repair, `parseString` takes the quote-toggling path only for texts that
+are not triple-quoted: `parseString_style` / `parseString_raw_style` carry that as an explicit
+hypothesis, which the users discharge (a spelled or quote-free body never starts with the
+delimiter: `spellAll_head_ne_quote`, `not_triple_of_head`).
 All statements are proved; `raw_no_escape_processing_partial` as originally stated is false
 (the literal `r'\'` — one backslash — see `raw_no_escape_processing_partial_false`) and is replaced by
 `raw_no_escape_processing_partial2` + `raw_dangling_backslash` (exact characterisation).
@@ -231,23 +245,56 @@ theorem char_toNat_lt (c : Char) : c.toNat < 16 ^ 8 := by
 def Style.inS : Style → Bool | .single => true | .double => false
 def Style.inD : Style → Bool | .single => false | .double => true
 
-theorem parseString_style (st : Style) (rest : Str) :
-    parseString (st.quote :: rest) = quoted (rest.length + 1) rest st.inS st.inD [] := by
-  cases st <;> simp [parseString, Style.quote, Style.inS, Style.inD]
+/-- the triple-quote test fails on short texts -/
+theorem isTriple_short (q : Char) (t : Str) (h : t.length < 6) : isTriple q t = false := by
+  simp [isTriple]
+  intro h'
+  omega
 
-theorem quoted_verbatim (st : Style) (c : Char) (h1 : c ≠ '\\') (h2 : c ≠ '\'') (h3 : c ≠ '"')
+/-- the triple-quote test fails when the first character is not the quote -/
+theorem isTriple_first (q a : Char) (r : Str) (h : a ≠ q) : isTriple q (a :: r) = false := by
+  simp [isTriple, h]
+
+/-- the triple-quote test fails when the second character is not the quote -/
+theorem isTriple_second (q a b : Char) (r : Str) (h : b ≠ q) :
+    isTriple q (a :: b :: r) = false := by
+  simp [isTriple, h]
+
+/-- a one-line literal whose body is empty or does not start with its own delimiter is not
+triple-quoted -/
+theorem not_triple_of_head (q : Char) (body : Str) (hh : ∀ a r, body = a :: r → a ≠ q) :
+    isTriple q (q :: (body ++ [q])) = false := by
+  cases body with
+  | nil => exact isTriple_short _ _ (by simp)
+  | cons a r => exact isTriple_second _ _ _ _ (hh a r rfl)
+
+/-- a text that is not triple-quoted and starts with a quote goes through the quote-toggling
+state machine (the hypothesis `hnt` is new with the D5c repair: a triple-quoted text is
+delimited once instead) -/
+theorem parseString_style (st : Style) (rest : Str)
+    (hnt : isTriple st.quote (st.quote :: rest) = false) :
+    parseString (st.quote :: rest) = quoted false (rest.length + 1) rest st.inS st.inD [] := by
+  cases st
+  · simp only [Style.quote] at hnt
+    simp [parseString, Style.quote, Style.inS, Style.inD, hnt,
+      isTriple_first '"' '\'' rest (by decide)]
+  · simp only [Style.quote] at hnt
+    simp [parseString, Style.quote, Style.inS, Style.inD, hnt,
+      isTriple_first '\'' '"' rest (by decide)]
+
+theorem quoted_verbatim (lit : Bool) (st : Style) (c : Char) (h1 : c ≠ '\\') (h2 : c ≠ '\'') (h3 : c ≠ '"')
     (f : Nat) (rest acc : Str) :
-    quoted (f + 1) (c :: rest) st.inS st.inD acc = quoted f rest st.inS st.inD (c :: acc) := by
+    quoted lit (f + 1) (c :: rest) st.inS st.inD acc = quoted lit f rest st.inS st.inD (c :: acc) := by
   cases st <;> simp [quoted, Style.inS, Style.inD, h1, h2, h3]
 
 theorem quoted_close (st : Style) (f : Nat) (acc : Str) :
-    quoted (f + 2) [st.quote] st.inS st.inD acc = some acc.reverse := by
+    quoted false (f + 2) [st.quote] st.inS st.inD acc = some acc.reverse := by
   cases st <;> simp [quoted, Style.inS, Style.inD, Style.quote]
 
-theorem quoted_simple (st : Style) (c e : Char) (h : simpleEscape st c = some e)
+theorem quoted_simple (lit : Bool) (st : Style) (c e : Char) (h : simpleEscape st c = some e)
     (f : Nat) (rest acc : Str) :
-    quoted (f + 1) ('\\' :: e :: rest) st.inS st.inD acc =
-      quoted f rest st.inS st.inD (c :: acc) := by
+    quoted lit (f + 1) ('\\' :: e :: rest) st.inS st.inD acc =
+      quoted lit f rest st.inS st.inD (c :: acc) := by
   unfold simpleEscape at h
   repeat' split at h
   all_goals first | (cases h; done) | skip
@@ -255,83 +302,83 @@ theorem quoted_simple (st : Style) (c e : Char) (h : simpleEscape st c = some e)
   all_goals subst_vars
   all_goals (cases st <;> simp [quoted, Style.inS, Style.inD, Style.quote])
 
-theorem quoted_x (st : Style) (f : Nat) (r2 r3 acc : Str) (v : Char)
+theorem quoted_x (lit : Bool) (st : Style) (f : Nat) (r2 r3 acc : Str) (v : Char)
     (h : unicodeHex 2 r2 = some (v, r3)) :
-    quoted (f + 1) ('\\' :: 'x' :: r2) st.inS st.inD acc = quoted f r3 st.inS st.inD (v :: acc) := by
+    quoted lit (f + 1) ('\\' :: 'x' :: r2) st.inS st.inD acc = quoted lit f r3 st.inS st.inD (v :: acc) := by
   cases st <;> simp [quoted, Style.inS, Style.inD, h]
 
-theorem quoted_X (st : Style) (f : Nat) (r2 r3 acc : Str) (v : Char)
+theorem quoted_X (lit : Bool) (st : Style) (f : Nat) (r2 r3 acc : Str) (v : Char)
     (h : unicodeHex 2 r2 = some (v, r3)) :
-    quoted (f + 1) ('\\' :: 'X' :: r2) st.inS st.inD acc = quoted f r3 st.inS st.inD (v :: acc) := by
+    quoted lit (f + 1) ('\\' :: 'X' :: r2) st.inS st.inD acc = quoted lit f r3 st.inS st.inD (v :: acc) := by
   cases st <;> simp [quoted, Style.inS, Style.inD, h]
 
-theorem quoted_u (st : Style) (f : Nat) (r2 r3 acc : Str) (v : Char)
+theorem quoted_u (lit : Bool) (st : Style) (f : Nat) (r2 r3 acc : Str) (v : Char)
     (h : unicodeHex 4 r2 = some (v, r3)) :
-    quoted (f + 1) ('\\' :: 'u' :: r2) st.inS st.inD acc = quoted f r3 st.inS st.inD (v :: acc) := by
+    quoted lit (f + 1) ('\\' :: 'u' :: r2) st.inS st.inD acc = quoted lit f r3 st.inS st.inD (v :: acc) := by
   cases st <;> simp [quoted, Style.inS, Style.inD, h]
 
-theorem quoted_U (st : Style) (f : Nat) (r2 r3 acc : Str) (v : Char)
+theorem quoted_U (lit : Bool) (st : Style) (f : Nat) (r2 r3 acc : Str) (v : Char)
     (h : unicodeHex 8 r2 = some (v, r3)) :
-    quoted (f + 1) ('\\' :: 'U' :: r2) st.inS st.inD acc = quoted f r3 st.inS st.inD (v :: acc) := by
+    quoted lit (f + 1) ('\\' :: 'U' :: r2) st.inS st.inD acc = quoted lit f r3 st.inS st.inD (v :: acc) := by
   cases st <;> simp [quoted, Style.inS, Style.inD, h]
 
-theorem quoted_u_none (st : Style) (f : Nat) (r2 acc : Str) (h : unicodeHex 4 r2 = none) :
-    quoted (f + 1) ('\\' :: 'u' :: r2) st.inS st.inD acc = none := by
+theorem quoted_u_none (lit : Bool) (st : Style) (f : Nat) (r2 acc : Str) (h : unicodeHex 4 r2 = none) :
+    quoted lit (f + 1) ('\\' :: 'u' :: r2) st.inS st.inD acc = none := by
   cases st <;> simp [quoted, Style.inS, Style.inD, h]
 
-theorem quoted_U_none (st : Style) (f : Nat) (r2 acc : Str) (h : unicodeHex 8 r2 = none) :
-    quoted (f + 1) ('\\' :: 'U' :: r2) st.inS st.inD acc = none := by
+theorem quoted_U_none (lit : Bool) (st : Style) (f : Nat) (r2 acc : Str) (h : unicodeHex 8 r2 = none) :
+    quoted lit (f + 1) ('\\' :: 'U' :: r2) st.inS st.inD acc = none := by
   cases st <;> simp [quoted, Style.inS, Style.inD, h]
 
-theorem quoted_oct (st : Style) (c2 : Char) (hc : c2 = '0' ∨ c2 = '1' ∨ c2 = '2' ∨ c2 = '3')
+theorem quoted_oct (lit : Bool) (st : Style) (c2 : Char) (hc : c2 = '0' ∨ c2 = '1' ∨ c2 = '2' ∨ c2 = '3')
     (f : Nat) (r2 r3 acc : Str) (v : Char) (h : unicodeOct c2 r2 = some (v, r3)) :
-    quoted (f + 1) ('\\' :: c2 :: r2) st.inS st.inD acc = quoted f r3 st.inS st.inD (v :: acc) := by
+    quoted lit (f + 1) ('\\' :: c2 :: r2) st.inS st.inD acc = quoted lit f r3 st.inS st.inD (v :: acc) := by
   rcases hc with hc | hc | hc | hc <;> subst hc <;> cases st <;>
     simp [quoted, Style.inS, Style.inD, h]
 
 /-! ## helper lemmas: one step of `quoted` per spelling -/
 
-theorem step_x (st : Style) (n : Nat) (hn : n < 256) (f : Nat) (rest acc : Str) :
-    quoted (f + 1) (('\\' :: 'x' :: hexN 2 n) ++ rest) st.inS st.inD acc =
-      quoted f rest st.inS st.inD (Char.ofNat n :: acc) := by
-  apply quoted_x st f (hexN 2 n ++ rest) rest acc
+theorem step_x (lit : Bool) (st : Style) (n : Nat) (hn : n < 256) (f : Nat) (rest acc : Str) :
+    quoted lit (f + 1) (('\\' :: 'x' :: hexN 2 n) ++ rest) st.inS st.inD acc =
+      quoted lit f rest st.inS st.inD (Char.ofNat n :: acc) := by
+  apply quoted_x lit st f (hexN 2 n ++ rest) rest acc
   rw [unicodeHex_hexN 2 n rest (by omega) hn, charOfNat_valid n (isValidChar_of_lt n hn)]
   rfl
 
-theorem step_X (st : Style) (n : Nat) (hn : n < 256) (f : Nat) (rest acc : Str) :
-    quoted (f + 1) (('\\' :: 'X' :: hexNUpper 2 n) ++ rest) st.inS st.inD acc =
-      quoted f rest st.inS st.inD (Char.ofNat n :: acc) := by
-  apply quoted_X st f (hexNUpper 2 n ++ rest) rest acc
+theorem step_X (lit : Bool) (st : Style) (n : Nat) (hn : n < 256) (f : Nat) (rest acc : Str) :
+    quoted lit (f + 1) (('\\' :: 'X' :: hexNUpper 2 n) ++ rest) st.inS st.inD acc =
+      quoted lit f rest st.inS st.inD (Char.ofNat n :: acc) := by
+  apply quoted_X lit st f (hexNUpper 2 n ++ rest) rest acc
   rw [unicodeHex_hexNUpper 2 n rest (by omega) hn, charOfNat_valid n (isValidChar_of_lt n hn)]
   rfl
 
-theorem step_u (st : Style) (n : Nat) (hn : n < 65536) (hv : n.isValidChar) (f : Nat)
+theorem step_u (lit : Bool) (st : Style) (n : Nat) (hn : n < 65536) (hv : n.isValidChar) (f : Nat)
     (rest acc : Str) :
-    quoted (f + 1) (('\\' :: 'u' :: hexN 4 n) ++ rest) st.inS st.inD acc =
-      quoted f rest st.inS st.inD (Char.ofNat n :: acc) := by
-  apply quoted_u st f (hexN 4 n ++ rest) rest acc
+    quoted lit (f + 1) (('\\' :: 'u' :: hexN 4 n) ++ rest) st.inS st.inD acc =
+      quoted lit f rest st.inS st.inD (Char.ofNat n :: acc) := by
+  apply quoted_u lit st f (hexN 4 n ++ rest) rest acc
   rw [unicodeHex_hexN 4 n rest (by omega) hn, charOfNat_valid n hv]
   rfl
 
-theorem step_U (st : Style) (n : Nat) (hn : n < 4294967296) (hv : n.isValidChar) (f : Nat)
+theorem step_U (lit : Bool) (st : Style) (n : Nat) (hn : n < 4294967296) (hv : n.isValidChar) (f : Nat)
     (rest acc : Str) :
-    quoted (f + 1) (('\\' :: 'U' :: hexN 8 n) ++ rest) st.inS st.inD acc =
-      quoted f rest st.inS st.inD (Char.ofNat n :: acc) := by
-  apply quoted_U st f (hexN 8 n ++ rest) rest acc
+    quoted lit (f + 1) (('\\' :: 'U' :: hexN 8 n) ++ rest) st.inS st.inD acc =
+      quoted lit f rest st.inS st.inD (Char.ofNat n :: acc) := by
+  apply quoted_U lit st f (hexN 8 n ++ rest) rest acc
   rw [unicodeHex_hexN 8 n rest (by omega) hn, charOfNat_valid n hv]
   rfl
 
-theorem step_oct (st : Style) (n : Nat) (hn : n < 256) (f : Nat) (rest acc : Str) :
-    quoted (f + 1) (('\\' :: oct3 n) ++ rest) st.inS st.inD acc =
-      quoted f rest st.inS st.inD (Char.ofNat n :: acc) := by
-  apply quoted_oct st _ (octLead (n / 64 % 8) (by omega)) f
+theorem step_oct (lit : Bool) (st : Style) (n : Nat) (hn : n < 256) (f : Nat) (rest acc : Str) :
+    quoted lit (f + 1) (('\\' :: oct3 n) ++ rest) st.inS st.inD acc =
+      quoted lit f rest st.inS st.inD (Char.ofNat n :: acc) := by
+  apply quoted_oct lit st _ (octLead (n / 64 % 8) (by omega)) f
     (Char.ofNat (48 + n / 8 % 8) :: Char.ofNat (48 + n % 8) :: rest) rest acc
   rw [unicodeOct_oct3 n rest hn, charOfNat_valid n (isValidChar_of_lt n hn)]
   rfl
 
-theorem spell_step (st : Style) (sp : Spelling) (c : Char) (s : Str)
+theorem spell_step (lit : Bool) (st : Style) (sp : Spelling) (c : Char) (s : Str)
     (h : spell st sp c = some s) (f : Nat) (rest acc : Str) :
-    quoted (f + 1) (s ++ rest) st.inS st.inD acc = quoted f rest st.inS st.inD (c :: acc) := by
+    quoted lit (f + 1) (s ++ rest) st.inS st.inD acc = quoted lit f rest st.inS st.inD (c :: acc) := by
   cases sp with
   | verbatim =>
     simp only [spell] at h
@@ -341,7 +388,7 @@ theorem spell_step (st : Style) (sp : Spelling) (c : Char) (s : Str)
       cases h
       simp only [Bool.or_eq_true, beq_iff_eq, not_or] at hc
       obtain ⟨⟨⟨⟨h1, h2⟩, h3⟩, _⟩, _⟩ := hc
-      exact quoted_verbatim st c h1 h2 h3 f rest acc
+      exact quoted_verbatim lit st c h1 h2 h3 f rest acc
   | simple =>
     simp only [spell] at h
     cases he : simpleEscape st c with
@@ -349,13 +396,13 @@ theorem spell_step (st : Style) (sp : Spelling) (c : Char) (s : Str)
     | some e =>
       simp [he] at h
       subst h
-      exact quoted_simple st c e he f rest acc
+      exact quoted_simple lit st c e he f rest acc
   | hexx =>
     simp only [spell] at h
     split at h
     · rename_i hc
       cases h
-      have := step_x st c.toNat hc f rest acc
+      have := step_x lit st c.toNat hc f rest acc
       rwa [Char.ofNat_toNat] at this
     · cases h
   | hexX =>
@@ -363,7 +410,7 @@ theorem spell_step (st : Style) (sp : Spelling) (c : Char) (s : Str)
     split at h
     · rename_i hc
       cases h
-      have := step_X st c.toNat hc f rest acc
+      have := step_X lit st c.toNat hc f rest acc
       rwa [Char.ofNat_toNat] at this
     · cases h
   | oct =>
@@ -371,7 +418,7 @@ theorem spell_step (st : Style) (sp : Spelling) (c : Char) (s : Str)
     split at h
     · rename_i hc
       cases h
-      have := step_oct st c.toNat hc f rest acc
+      have := step_oct lit st c.toNat hc f rest acc
       rwa [Char.ofNat_toNat] at this
     · cases h
   | u4 =>
@@ -379,13 +426,13 @@ theorem spell_step (st : Style) (sp : Spelling) (c : Char) (s : Str)
     split at h
     · rename_i hc
       cases h
-      have := step_u st c.toNat hc (char_isValid c) f rest acc
+      have := step_u lit st c.toNat hc (char_isValid c) f rest acc
       rwa [Char.ofNat_toNat] at this
     · cases h
   | u8 =>
     simp only [spell] at h
     cases h
-    have := step_U st c.toNat (char_toNat_lt c) (char_isValid c) f rest acc
+    have := step_U lit st c.toNat (char_toNat_lt c) (char_isValid c) f rest acc
     rwa [Char.ofNat_toNat] at this
 
 theorem spell_length (st : Style) (sp : Spelling) (c : Char) (s : Str)
@@ -422,10 +469,10 @@ theorem spellAll_length (st : Style) : ∀ (cs : List (Spelling × Char)) (body 
         simp
         omega
 
-theorem spellAll_run (st : Style) (rest : Str) : ∀ (cs : List (Spelling × Char)) (body : Str),
+theorem spellAll_run (lit : Bool) (st : Style) (rest : Str) : ∀ (cs : List (Spelling × Char)) (body : Str),
     spellAll st cs = some body → ∀ (f : Nat) (acc : Str),
-    quoted (f + cs.length) (body ++ rest) st.inS st.inD acc =
-      quoted f rest st.inS st.inD ((cs.map (·.2)).reverse ++ acc) := by
+    quoted lit (f + cs.length) (body ++ rest) st.inS st.inD acc =
+      quoted lit f rest st.inS st.inD ((cs.map (·.2)).reverse ++ acc) := by
   intro cs
   induction cs with
   | nil =>
@@ -446,17 +493,73 @@ theorem spellAll_run (st : Style) (rest : Str) : ∀ (cs : List (Spelling × Cha
         simp [h1, h2] at h
         subst h
         rw [List.length_cons, ← Nat.add_assoc, List.append_assoc,
-          spell_step st sp c a h1, ih b h2]
+          spell_step lit st sp c a h1, ih b h2]
         simp
 
+/-- every spelled character starts with a character that is not a quote -/
+theorem spell_head (st : Style) (sp : Spelling) (c : Char) (s : Str)
+    (h : spell st sp c = some s) : ∃ a t, s = a :: t ∧ a ≠ '\'' ∧ a ≠ '"' := by
+  cases sp <;> simp only [spell] at h
+  case verbatim =>
+    split at h
+    · cases h
+    · rename_i hc
+      cases h
+      simp only [Bool.or_eq_true, beq_iff_eq, not_or] at hc
+      obtain ⟨⟨⟨⟨_, h2⟩, h3⟩, _⟩, _⟩ := hc
+      exact ⟨_, _, rfl, h2, h3⟩
+  case simple =>
+    cases he : simpleEscape st c with
+    | none => simp [he] at h
+    | some e => simp [he] at h; subst h; exact ⟨_, _, rfl, by decide, by decide⟩
+  case u8 => cases h; exact ⟨_, _, rfl, by decide, by decide⟩
+  all_goals
+    split at h
+    all_goals first | (cases h; done) | (cases h; exact ⟨_, _, rfl, by decide, by decide⟩)
+
+theorem spell_head_ne_quote (st : Style) (sp : Spelling) (c : Char) (s : Str)
+    (h : spell st sp c = some s) : ∀ a t, s = a :: t → a ≠ st.quote := by
+  intro a t hs
+  obtain ⟨a', t', rfl, h1, h2⟩ := spell_head st sp c s h
+  cases hs
+  cases st
+  · exact h1
+  · exact h2
+
+/-- a spelled body never starts with the delimiter -/
+theorem spellAll_head_ne_quote (st : Style) (cs : List (Spelling × Char)) (body : Str)
+    (h : spellAll st cs = some body) : ∀ a r, body = a :: r → a ≠ st.quote := by
+  intro a r hbody
+  cases cs with
+  | nil => simp [spellAll] at h; subst h; cases hbody
+  | cons p cs =>
+    obtain ⟨sp, c⟩ := p
+    simp only [spellAll] at h
+    cases h1 : spell st sp c with
+    | none => simp [h1] at h
+    | some s =>
+      cases h2 : spellAll st cs with
+      | none => simp [h1, h2] at h
+      | some b =>
+        simp [h1, h2] at h
+        subst h
+        obtain ⟨a', t', rfl, _⟩ := spell_head st sp c s h1
+        simp at hbody
+        obtain ⟨rfl, _⟩ := hbody
+        exact spell_head_ne_quote st sp c _ h1 a' t' rfl
+
+/-- (the escape `s` starts with a backslash, so the text is not triple-quoted) -/
 theorem one_escape (st : Style) (s : Str) (c : Char)
-    (hs : ∀ f rest acc, quoted (f + 1) (s ++ rest) st.inS st.inD acc =
-      quoted f rest st.inS st.inD (c :: acc)) (hlen : 1 ≤ s.length) :
-    parseString (st.quote :: s ++ [st.quote]) = some [c] := by
+    (hs : ∀ f rest acc, quoted false (f + 1) (('\\' :: s) ++ rest) st.inS st.inD acc =
+      quoted false f rest st.inS st.inD (c :: acc)) :
+    parseString (st.quote :: '\\' :: s ++ [st.quote]) = some [c] := by
   simp only [List.cons_append]
-  rw [parseString_style]
-  have hl : (s ++ [st.quote]).length + 1 = (s.length - 1 + 2) + 1 := by simp; omega
-  rw [hl, hs, quoted_close]
+  rw [parseString_style _ _ (isTriple_second _ _ _ _ (by cases st <;> decide))]
+  have hl : ('\\' :: (s ++ [st.quote])).length + 1 = (s.length + 2) + 1 := by simp
+  rw [hl]
+  have := hs (s.length + 2) [st.quote] []
+  simp only [List.cons_append] at this
+  rw [this, quoted_close]
   rfl
 
 /-! ## strings -/
@@ -468,30 +571,30 @@ theorem string_roundtrip_partial (st : Style) (cs : List (Spelling × Char)) (bo
     (h : spellAll st cs = some body) :
     parseString (st.quote :: body ++ [st.quote]) = some (cs.map (·.2)) := by
   simp only [List.cons_append]
-  rw [parseString_style]
+  rw [parseString_style _ _ (not_triple_of_head _ body (spellAll_head_ne_quote st cs body h))]
   have hle := spellAll_length st cs body h
   have hl : (body ++ [st.quote]).length + 1 = (body.length - cs.length + 2) + cs.length := by
     simp; omega
-  rw [hl, spellAll_run st [st.quote] cs body h, quoted_close]
+  rw [hl, spellAll_run false st [st.quote] cs body h, quoted_close]
   simp
 
 /-- each escape form denotes the code point written (instances of the round trip, stated for
 the record) -/
 theorem escape_x_denotation (st : Style) (n : Nat) (hn : n < 256) :
     parseString (st.quote :: '\\' :: 'x' :: hexN 2 n ++ [st.quote]) = some [Char.ofNat n] := by
-  exact one_escape st _ _ (step_x st n hn) (by simp)
+  exact one_escape st _ _ (step_x false st n hn)
 
 theorem escape_oct_denotation (st : Style) (n : Nat) (hn : n < 256) :
     parseString (st.quote :: '\\' :: oct3 n ++ [st.quote]) = some [Char.ofNat n] := by
-  exact one_escape st _ _ (step_oct st n hn) (by simp)
+  exact one_escape st _ _ (step_oct false st n hn)
 
 theorem escape_u_denotation (st : Style) (n : Nat) (hn : n < 65536) (hv : n.isValidChar) :
     parseString (st.quote :: '\\' :: 'u' :: hexN 4 n ++ [st.quote]) = some [Char.ofNat n] := by
-  exact one_escape st _ _ (step_u st n hn hv) (by simp)
+  exact one_escape st _ _ (step_u false st n hn hv)
 
 theorem escape_U_denotation (st : Style) (n : Nat) (hn : n < 4294967296) (hv : n.isValidChar) :
     parseString (st.quote :: '\\' :: 'U' :: hexN 8 n ++ [st.quote]) = some [Char.ofNat n] := by
-  exact one_escape st _ _ (step_U st n hn hv) (by simp)
+  exact one_escape st _ _ (step_U false st n hn hv)
 
 /-- escapes that name no valid code point (surrogates, beyond U+10FFFF) are rejected -/
 theorem invalid_codepoint_rejected (st : Style) (n : Nat) (hn : n < 4294967296) (hv : ¬ n.isValidChar) :
@@ -499,13 +602,13 @@ theorem invalid_codepoint_rejected (st : Style) (n : Nat) (hn : n < 4294967296) 
     (n < 65536 → parseString (st.quote :: '\\' :: 'u' :: hexN 4 n ++ [st.quote]) = none) := by
   constructor
   · simp only [List.cons_append]
-    rw [parseString_style]
+    rw [parseString_style _ _ (isTriple_second _ _ _ _ (by cases st <;> decide))]
     apply quoted_U_none
     rw [unicodeHex_hexN 8 n _ (by omega) hn, charOfNat_invalid n hv]
     rfl
   · intro hn4
     simp only [List.cons_append]
-    rw [parseString_style]
+    rw [parseString_style _ _ (isTriple_second _ _ _ _ (by cases st <;> decide))]
     apply quoted_u_none
     rw [unicodeHex_hexN 4 n _ (by omega) hn4, charOfNat_invalid n hv]
     rfl
@@ -582,15 +685,36 @@ theorem raw_open (st : Style) (f : Nat) (rest : Str) :
     raw (f + 1) (st.quote :: rest) false false [] = raw f rest st.inS st.inD [] := by
   cases st <;> simp [raw, Style.inS, Style.inD, Style.quote]
 
+/-- a raw text that is not triple-quoted goes through the raw quote-toggling state machine
+(the hypothesis `hnt` is new with the D5c repair) -/
+theorem parseString_raw_style (m : Char) (hm : m = 'r' ∨ m = 'R') (st : Style) (rest : Str)
+    (hnt : isTriple st.quote (st.quote :: rest) = false) :
+    parseString (m :: st.quote :: rest) =
+      raw (rest.length + 1 + 1) (st.quote :: rest) false false [] := by
+  cases st
+  · simp only [Style.quote] at hnt
+    rcases hm with rfl | rfl <;>
+      simp [parseString, Style.quote, hnt, isTriple_first '"' '\'' rest (by decide)]
+  · simp only [Style.quote] at hnt
+    rcases hm with rfl | rfl <;>
+      simp [parseString, Style.quote, hnt, isTriple_first '\'' '"' rest (by decide)]
+
+/-- (a quote-free body never starts with the delimiter, so the text is not triple-quoted: no new
+hypothesis is needed) -/
 theorem parseString_raw (m : Char) (hm : m = 'r' ∨ m = 'R') (st : Style) (body : Str)
     (hb : ∀ c ∈ body, c ≠ '\'' ∧ c ≠ '"') :
     parseString (m :: st.quote :: body ++ [st.quote]) =
       some (if rawDangling body then body.dropLast ++ [st.quote] else body) := by
   simp only [List.cons_append]
-  have : parseString (m :: st.quote :: (body ++ [st.quote])) =
-      raw ((body ++ [st.quote]).length + 1 + 1) (st.quote :: (body ++ [st.quote])) false false [] := by
-    rcases hm with rfl | rfl <;> simp [parseString]
-  rw [this, raw_open, raw_run st body.length body (Nat.le_refl _) hb _ _ (by simp)]
+  have hnt : isTriple st.quote (st.quote :: (body ++ [st.quote])) = false := by
+    apply not_triple_of_head
+    intro a r hbody
+    have := hb a (by simp [hbody])
+    cases st
+    · exact this.1
+    · exact this.2
+  rw [parseString_raw_style m hm st _ hnt, raw_open,
+    raw_run st body.length body (Nat.le_refl _) hb _ _ (by simp)]
   simp
 
 theorem quote_style (q : Char) (hq : q = '\'' ∨ q = '"') : ∃ st : Style, q = st.quote := by
@@ -653,11 +777,182 @@ theorem raw_backslash_quote_counterexample :
     parseString "r\"abc\\\"".toList = some "abc\"".toList := by
   decide
 
-/-- D5c: a triple-quoted literal containing its own quote character is rejected, or loses
-quote characters -/
-theorem triple_quote_counterexample :
-    parseString "'''a'b'''".toList = none ∧
-    parseString "\"\"\"a\"\"b\"\"\"".toList = some "ab".toList := by
+/-! ## triple-quoted literals (delimited once; quotes inside the body are literal — the D5c repair) -/
+
+/-- the spelling of one character inside a triple-quoted literal: as in a one-line literal,
+and additionally both quote characters and line breaks may be written verbatim -/
+def spellT (st : Style) (sp : Spelling) (c : Char) : Option Str :=
+  match sp with
+  | .verbatim => if c == '\\' then none else some [c]
+  | sp => spell st sp c
+
+def spellAllT (st : Style) : List (Spelling × Char) → Option Str
+  | [] => some []
+  | (sp, c) :: rest =>
+    match spellT st sp c, spellAllT st rest with
+    | some a, some b => some (a ++ b)
+    | _, _ => none
+
+def Style.triple (st : Style) : Str := [st.quote, st.quote, st.quote]
+
+/-- inside a triple-quoted body every character other than a backslash is pushed literally -/
+theorem quoted_lit_char (st : Style) (c : Char) (h1 : c ≠ '\\') (f : Nat) (rest acc : Str) :
+    quoted true (f + 1) (c :: rest) st.inS st.inD acc =
+      quoted true f rest st.inS st.inD (c :: acc) := by
+  cases st <;> simp [quoted, Style.inS, Style.inD, h1]
+
+/-- the end of a triple-quoted body: no closing quote is expected -/
+theorem quoted_lit_end (f : Nat) (inS inD : Bool) (acc : Str) :
+    quoted true (f + 1) [] inS inD acc = some acc.reverse := by
+  simp [quoted]
+
+theorem spellT_step (st : Style) (sp : Spelling) (c : Char) (s : Str)
+    (h : spellT st sp c = some s) (f : Nat) (rest acc : Str) :
+    quoted true (f + 1) (s ++ rest) st.inS st.inD acc =
+      quoted true f rest st.inS st.inD (c :: acc) := by
+  cases sp with
+  | verbatim =>
+    simp only [spellT] at h
+    split at h
+    · cases h
+    · rename_i hc
+      cases h
+      simp only [beq_iff_eq] at hc
+      exact quoted_lit_char st c hc f rest acc
+  | simple => exact spell_step true st .simple c s h f rest acc
+  | hexx => exact spell_step true st .hexx c s h f rest acc
+  | hexX => exact spell_step true st .hexX c s h f rest acc
+  | oct => exact spell_step true st .oct c s h f rest acc
+  | u4 => exact spell_step true st .u4 c s h f rest acc
+  | u8 => exact spell_step true st .u8 c s h f rest acc
+
+theorem spellT_length (st : Style) (sp : Spelling) (c : Char) (s : Str)
+    (h : spellT st sp c = some s) : 1 ≤ s.length := by
+  cases sp with
+  | verbatim =>
+    simp only [spellT] at h
+    split at h
+    · cases h
+    · cases h; simp
+  | simple => exact spell_length st .simple c s h
+  | hexx => exact spell_length st .hexx c s h
+  | hexX => exact spell_length st .hexX c s h
+  | oct => exact spell_length st .oct c s h
+  | u4 => exact spell_length st .u4 c s h
+  | u8 => exact spell_length st .u8 c s h
+
+theorem spellAllT_cons (st : Style) (sp : Spelling) (c : Char) (cs : List (Spelling × Char))
+    (body : Str) (h : spellAllT st ((sp, c) :: cs) = some body) :
+    ∃ a b, spellT st sp c = some a ∧ spellAllT st cs = some b ∧ body = a ++ b := by
+  simp only [spellAllT] at h
+  cases h1 : spellT st sp c with
+  | none => simp [h1] at h
+  | some a =>
+    cases h2 : spellAllT st cs with
+    | none => simp [h1, h2] at h
+    | some b =>
+      simp [h1, h2] at h
+      exact ⟨a, b, rfl, rfl, h.symm⟩
+
+theorem spellAllT_length (st : Style) : ∀ (cs : List (Spelling × Char)) (body : Str),
+    spellAllT st cs = some body → cs.length ≤ body.length := by
+  intro cs
+  induction cs with
+  | nil => intro body _; simp
+  | cons p cs ih =>
+    obtain ⟨sp, c⟩ := p
+    intro body h
+    obtain ⟨a, b, h1, h2, rfl⟩ := spellAllT_cons st sp c cs body h
+    have := spellT_length st sp c a h1
+    have := ih b h2
+    simp
+    omega
+
+theorem spellAllT_run (st : Style) (rest : Str) : ∀ (cs : List (Spelling × Char)) (body : Str),
+    spellAllT st cs = some body → ∀ (f : Nat) (acc : Str),
+    quoted true (f + cs.length) (body ++ rest) st.inS st.inD acc =
+      quoted true f rest st.inS st.inD ((cs.map (·.2)).reverse ++ acc) := by
+  intro cs
+  induction cs with
+  | nil =>
+    intro body h f acc
+    simp only [spellAllT] at h
+    cases h
+    simp
+  | cons p cs ih =>
+    obtain ⟨sp, c⟩ := p
+    intro body h f acc
+    obtain ⟨a, b, h1, h2, rfl⟩ := spellAllT_cons st sp c cs body h
+    rw [List.length_cons, ← Nat.add_assoc, List.append_assoc,
+      spellT_step st sp c a h1, ih b h2]
+    simp
+
+/-- the body of a spelled triple-quoted literal decodes to the characters written -/
+theorem quoted_lit_spelled (st : Style) (cs : List (Spelling × Char)) (body : Str)
+    (h : spellAllT st cs = some body) :
+    quoted true (body.length + 1) body st.inS st.inD [] = some (cs.map (·.2)) := by
+  have hle := spellAllT_length st cs body h
+  have hl : body.length + 1 = (body.length - cs.length + 1) + cs.length := by omega
+  have := spellAllT_run st [] cs body h (body.length - cs.length + 1) []
+  rw [List.append_nil] at this
+  rw [hl, this, Nat.add_comm _ 1, Nat.add_comm 1, quoted_lit_end]
+  simp
+
+/-- a text delimited by three quotes on either side passes the triple-quote test … -/
+theorem isTriple_triple (st : Style) (body : Str) :
+    isTriple st.quote (st.quote :: st.quote :: st.quote :: (body ++ st.triple)) = true := by
+  have h : (st.quote :: st.quote :: st.quote :: (body ++ st.triple)) =
+      (st.quote :: st.quote :: st.quote :: body) ++ st.triple := by simp
+  unfold isTriple
+  rw [h, List.drop_left' (by simp [Style.triple])]
+  simp [Style.triple]
+
+/-- … and stripping the delimiters once leaves the body -/
+theorem triple_body (q : Char) (body : Str) :
+    ((q :: q :: q :: (body ++ [q, q, q])).drop 3).take
+      ((q :: q :: q :: (body ++ [q, q, q])).length - 6) = body := by
+  simp
+
+/-- the decoder on a (cooked) triple-quoted text -/
+theorem parseString_triple (st : Style) (body : Str) :
+    parseString (st.triple ++ body ++ st.triple) =
+      quoted true (body.length + 1) body st.inS st.inD [] := by
+  have ht := isTriple_triple st body
+  cases st
+  · simp only [Style.quote, Style.triple] at ht
+    simp [parseString, Style.triple, Style.quote, Style.inS, Style.inD, ht]
+  · simp only [Style.quote, Style.triple] at ht
+    simp [parseString, Style.triple, Style.quote, Style.inS, Style.inD, ht,
+      isTriple_first '\'' '"' _ (by decide)]
+
+/-- ROUND TRIP for triple-quoted literals: every string — quote characters of either kind and
+line breaks included, written verbatim or under any escape spelling (an escaped quote of the
+other kind excluded, D5a) — decodes to exactly itself.  (Whether the lexer hands such a text to the
+decoder as one token is the lexer's business: a body containing the closing delimiter is cut
+there.) -/
+theorem triple_quoted_roundtrip_partial (st : Style) (cs : List (Spelling × Char)) (body : Str)
+    (h : spellAllT st cs = some body) :
+    parseString (st.triple ++ body ++ st.triple) = some (cs.map (·.2)) := by
+  rw [parseString_triple, quoted_lit_spelled st cs body h]
+
+/-- a raw triple-quoted literal denotes its body verbatim — for EVERY body: no escape
+processing, no quote toggling -/
+theorem raw_triple_verbatim (m : Char) (hm : m = 'r' ∨ m = 'R') (st : Style) (body : Str) :
+    parseString (m :: st.triple ++ body ++ st.triple) = some body := by
+  have ht := isTriple_triple st body
+  cases st
+  · simp only [Style.quote, Style.triple] at ht
+    rcases hm with rfl | rfl <;>
+      simp [parseString, Style.triple, Style.quote, ht]
+  · simp only [Style.quote, Style.triple] at ht
+    rcases hm with rfl | rfl <;>
+      simp [parseString, Style.triple, Style.quote, ht, isTriple_first '\'' '"' _ (by decide)]
+
+/-- the former D5c witnesses now denote what was written -/
+theorem triple_quote_inner_quotes :
+    parseString "'''a'b'''".toList = some "a'b".toList ∧
+    parseString "\"\"\"a\"\"b\"\"\"".toList = some "a\"\"b".toList ∧
+    parseString "\"\"\"\"a\"\"\"".toList = some "\"a".toList := by
   decide
 
 /-! ## bytes -/
